@@ -89,6 +89,18 @@ func finish(cfg *Config, L *Loaded, reports []*HarnessReport, kf *KnownFindings,
 	var knownSeenIDs []string
 	expCov := expectedCovers(L)
 	caseTimeout := 20000
+	// harness files may ask for a longer native timeout: //verif:native-timeout <ms>
+	for _, hf := range L.HarnessFiles {
+		for _, line := range strings.Split(string(hf.Content), "\n") {
+			line = strings.TrimSpace(line)
+			if strings.HasPrefix(line, "//verif:native-timeout ") {
+				var ms int
+				if _, err := fmt.Sscanf(strings.TrimPrefix(line, "//verif:native-timeout "), "%d", &ms); err == nil && ms > caseTimeout {
+					caseTimeout = ms
+				}
+			}
+		}
+	}
 
 	pkgOf := map[string]string{}
 	for _, h := range L.Harnesses {
